@@ -628,6 +628,14 @@ func (f *frame) indexAddr(x *ssa.IndexAddr) {
 	case *types.Pointer:
 		arr := t.Elem().Underlying().(*types.Array)
 		sv := f.get(x.X)
+		if sv.loc != nil && sv.loc.kind == locGlobal && sv.loc.idx == "" {
+			// element of a package-level array variable
+			if _, isConst := x.Index.(*ssa.Const); !isConst {
+				f.boundsOblige("safety.index", x.Pos(), "index", fmt.Sprintf("(bvult %s %s)", i, bvLit(arr.Len(), 64)))
+			}
+			f.vals[x] = SV{t: x.Type(), loc: &Loc{kind: locGlobal, global: sv.loc.global, idx: i, elemT: arr.Elem(), owner: t.Elem()}}
+			return
+		}
 		if sv.loc != nil {
 			bail("index of array inside struct/global by address (%s)", f.fn.Name())
 		}
